@@ -11,11 +11,11 @@ from simworld.core import H
 from . import common
 
 WEIGHTS = {
-    "C01": {"redox": 3, "hand": 2, "ionic": 1, "mcs-based": 2, "rule-based": 1, "charge-trap": 1},
-    "C02": {"hand": 3, "redox": 1, "mapped": 2, "mcs-based": 1, "stereo": 1, "marker-prefix": 2, "tautomer-form": 2},
+    "C01": {"redox": 3, "hand": 2, "ionic": 1, "mcs-based": 2, "rule-based": 1, "charge-trap": 1, "isotope": 0.5, "dummy-atom": 0.5, "double-redox": 1},
+    "C02": {"hand": 3, "redox": 1, "mapped": 2, "mcs-based": 1, "stereo": 1, "marker-prefix": 2, "tautomer-form": 2, "isotope": 1, "dummy-atom": 1},
     "C03": {"declined": 3, "carbon-surplus": 1, "mcs-based": 2, "hand": 1, "redox": 1},
-    "C04": {"input-balanced": 4, "hand": 2, "ionic": 1, "mcs-based": 1, "rule-based": 1, "charge-trap": 1, "redox": 2},
-    "C18": {"mcs-based": 2, "rule-based": 1, "input-balanced": 1, "declined": 1, "hand": 1},
+    "C04": {"input-balanced": 4, "hand": 2, "ionic": 1, "mcs-based": 1, "rule-based": 1, "charge-trap": 1, "redox": 2, "isotope": 1, "dummy-atom": 1, "stereo": 1, "mapped": 1},
+    "C18": {"mcs-based": 2, "rule-based": 1, "input-balanced": 1, "declined": 1, "hand": 1, "both-carbon": 1, "no-mcs": 0.5, "carbon-surplus": 0.5},
 }
 FAULTY = {"C01": 0.5, "C02": 0.3, "C03": 0.5, "C04": 0.2, "C18": 0.4}
 NPLANS = {
@@ -105,11 +105,23 @@ def gen_plan(prop, base_seed, i, tier):
         "config": cfg,
         "sim": common.gen_sim(rng, faults=faulty),
     }
+    if prop in ("C01", "C02", "C04") and rng.random() < 0.3 and plan["source"] == "list":
+        # equivalent spellings of some rows (applied in the worker, where RDKit is loaded)
+        plan["respell"] = [[rng.randrange(len(plan["rows"])), rng.choice(["random", "kekule", "maps", "explicit_h", "triple", "random"]), rng.getrandbits(24)]
+                           for _ in range(rng.randint(1, 3))]
     if prop == "C03" and faulty and rng.random() < 0.5:
         # the late-writing worker thread only matters when the search runs in the caller's process
         plan["config"]["n_jobs"] = 1
         plan["sim"]["faults"]["zombie_q"] = rng.choice([0.5, 1.0, 1.0])
         plan["sim"]["faults"].setdefault("rates", {}).setdefault("mcs_job", {})["timeout"] = rng.choice([0.3, 0.6])
+    if prop == "C18" and rng.random() < 0.15:
+        # a batch that fails (worker failure at a drawn Parallel call): whatever is returned, rows and counts must agree
+        plan["kind"] = "par_fault"
+        plan["points"] = [rng.getrandbits(32) for _ in range(3)]
+        plan["sim"].pop("faults", None)
+        if plan["config"].get("batch_size") is None:
+            plan["config"]["batch_size"] = rng.choice([1, 2, 3])
+        return plan
     if prop == "C01" and rng.random() < 0.25:
         # a worker task of some Parallel call fails (crash point drawn over the calls the run really makes):
         # the batch may be lost, but whatever is returned as solved must still be balanced
@@ -164,6 +176,11 @@ def execute(plan):
     from simworld import runner, oracles
 
     prop = plan["property"]
+    if plan.get("respell") and not plan.get("_respelled"):
+        plan = dict(plan, rows=list(plan["rows"]), _respelled=True)
+        for j, kind, sd in plan["respell"]:
+            if j < len(plan["rows"]) and isinstance(plan["rows"][j], str):
+                plan["rows"][j] = respell(plan["rows"][j], kind, sd)
     rows_in = [r["reaction"] if isinstance(r, dict) else r for r in plan["rows"]]
     valid = [oracles.is_valid_row(r) for r in rows_in]
     if plan.get("kind") == "par_fault":
@@ -232,6 +249,53 @@ def execute(plan):
     return out
 
 
+def respell(rsmi, kind, seed):
+    """An equivalent spelling of the same reaction (same molecules on each side)."""
+    import random
+    from rdkit import Chem
+    from simworld import oracles
+
+    if not oracles.is_valid_row(rsmi):
+        return rsmi
+    rnd = random.Random(seed)
+    sides = []
+    n_map = [0]
+    for side in rsmi.split(">>"):
+        comps = []
+        for c in side.split("."):
+            m = Chem.MolFromSmiles(c)
+            if m is None:
+                return rsmi
+            if kind == "random":
+                out = Chem.MolToSmiles(m, doRandom=True, canonical=False)
+            elif kind == "kekule":
+                mk = Chem.Mol(m)
+                try:
+                    Chem.Kekulize(mk, clearAromaticFlags=True)
+                    out = Chem.MolToSmiles(mk, kekuleSmiles=True)
+                except Exception:
+                    out = c
+            elif kind == "maps":
+                mm = Chem.Mol(m)
+                for a in mm.GetAtoms():
+                    n_map[0] += 1
+                    a.SetAtomMapNum(n_map[0])
+                out = Chem.MolToSmiles(mm)
+            elif kind == "explicit_h":
+                out = Chem.MolToSmiles(m, allHsExplicit=True)
+            else:
+                out = c
+            if Chem.MolFromSmiles(out) is None:
+                out = c
+            comps.append(out)
+        if kind == "random":
+            rnd.shuffle(comps)
+        sides.append(comps)
+    if kind == "triple":
+        sides = [s * 3 for s in sides]
+    return ".".join(sides[0]) + ">>" + ".".join(sides[1])
+
+
 def execute_par_fault(plan, rows_in):
     """C01 under worker failures: fault-free run to count the Parallel calls, then one run per drawn
     crash point with the first task of that call failing."""
@@ -250,15 +314,24 @@ def execute_par_fault(plan, rows_in):
     for k in pts:
         sim = common.clone(plan["sim"])
         sim["faults"] = {"explicit": [{"site": "par_task", "key": [k, 0], "kind": "raise"}], "zombie_q": 0.0}
-        sub = {"property": "C01", "kind": "run", "rows": plan["rows"], "source": plan.get("source", "list"), "config": plan["config"], "sim": sim}
+        sub = {"property": plan["property"], "kind": "run", "rows": plan["rows"], "source": plan.get("source", "list"), "config": plan["config"], "sim": sim}
         res = runner.run_once(sub)
         out["runs"] += 1
         out["summary"].append(common.run_summary(res))
-        for row in res["rows"] or []:
-            for v in oracles.check_c01(row["input_reaction"] or "", row):
-                v["detail"] = "[worker failure in Parallel call %d of %d] " % (k, n) + v["detail"]
-                v["subplan"] = sub
-                out["violations"].append(v)
+        if plan["property"] == "C18":
+            rows = res["rows"] or []
+            if rows and all(oracles.pipeline_accepts(r["input_reaction"] or "") for r in rows):
+                # rows lost with the failed batch are C05's business; the counts must describe the rows that came back
+                for v in oracles.check_c18(rows, res["stats"], len(rows)):
+                    v["detail"] = "[worker failure in Parallel call %d of %d, %d of %d rows returned] " % (k, n, len(rows), len(rows_in)) + v["detail"]
+                    v["subplan"] = dict(sub, property="C18")
+                    out["violations"].append(v)
+        else:
+            for row in res["rows"] or []:
+                for v in oracles.check_c01(row["input_reaction"] or "", row):
+                    v["detail"] = "[worker failure in Parallel call %d of %d] " % (k, n) + v["detail"]
+                    v["subplan"] = sub
+                    out["violations"].append(v)
         if res["fired"].get("par_task.raise"):
             out["nontrivial_many"].append("%016x" % H(sorted(rows_in), plan["config"], k))
     out["sample"] = {"rows": rows_in, "config": plan["config"], "parallel_calls_in_run": n, "worker_failure_at_calls": pts}
